@@ -72,9 +72,9 @@ def check_object(p, s, want_gens, n, fmt, case, exact=True):
     if not ok or not ok2:
         p.violate(key + "to_list-raises", "to_list raised", case)
         return
-    if [parse_pauli(x) for x in lst] != got or any(len(x) != n + 1 or x[0] not in "+-" for x in lst):
+    if [parse_pauli(x) for x in lst] != got or any(len(x.lstrip("+-")) != n for x in lst):
         p.violate("export wrong", "to_list() = %s does not spell the object's generators %s" % (lst, [to_str(g, n) for g in got]), case)
-    if rev != [x[0] + x[1:][::-1] for x in lst]:
+    if rev != [x[:len(x) - n] + x[len(x) - n:][::-1] for x in lst]:
         p.violate("export mirror", "to_list(qiskit_convention=True) = %s is not the mirror image of %s" % (rev, lst), case)
     from htstabilizer.stabilizer import Stabilizer
     ok, s2 = call(Stabilizer, list(lst))
